@@ -5,9 +5,8 @@
    Reading guide
      fmt_node nonstr srt kind api s p n   formatter.fmtNode on node n at path p with schema s, for the
                                           document's kind / apiVersion; [srt] is sort.Sort, [isort] the
-                                          stable insertion sort Go runs for <= 12 elements
+                                          stable sort (what sort.Stable computes)
      S1 srt      "returns a sorted permutation and leaves a sorted input unchanged" (FmtSort.S1)
-     keyed_ok    no sequence is a direct element of a keyed whitelisted list (.spec.template.spec.containers)
      wf_keys     every mapping has pairwise distinct keys *)
 From KV Require Import Yaml.Fmt Yaml.FmtSort Yaml.FmtTablesRef Yaml.FmtProofs.
 From Coq Require Import Permutation.
@@ -87,53 +86,40 @@ Proof. exact fmt_sort_independent. Qed.
 Print Assumptions C20_sort_independent.
 
 (* ---- idempotence ----
-   Full statement (all nodes):  fmt_node .. n = Ok n' -> fmt_node .. n' = Ok n'.
-   It is FALSE for the code as written: see C20_idempotent_refuted (a list nested in the keyed
-   whitelisted list; no duplicate keys involved) and C20_idempotent_any_sort_refuted (duplicate sort
-   field + a sort that is not stable, which sort.Sort is beyond 12 elements).  What holds: *)
-
-(* with the stable sort: all nodes — duplicate keys and equal sort keys included — except that no
-   sequence may sit directly in a keyed whitelisted list *)
-Theorem C20_idempotent_partial : forall nonstr kind api n s p n',
-  keyed_ok kind api p n = true ->
+   Full statement, all nodes (duplicate keys, equal or missing sort keys, nested lists, aliases included),
+   all schemas and paths: formatting a formatted node changes nothing.  [isort] is the stable sort —
+   sort.Stable since the repair "formatter sorts ... with sort.Stable"; only mapping elements carry a
+   sort field since the repair "formatter reads the sort field ... only from mapping elements".
+   Before the two repairs this was refuted (a list nested in `containers`; an element with the sort field
+   twice under the non-stable sort.Sort): the former witnesses are the regression Examples
+   wit_nested_seq_now_idempotent, wit_dup_sortfield_now_idempotent, unstable_sort_breaks_idempotence. *)
+Theorem C20_idempotent : forall nonstr kind api n s p n',
   fmt_node nonstr isort kind api s p n = Ok n' -> fmt_node nonstr isort kind api s p n' = Ok n'.
 Proof. exact fmt_idem_isort. Qed.
-Print Assumptions C20_idempotent_partial.
-
-(* with any sort meeting (S1): additionally the keys of every mapping must be distinct *)
-Theorem C20_idempotent_any_sort_partial : forall nonstr kind api srt, S1 srt -> forall n s p n',
-  keyed_ok kind api p n = true -> wf_keys n = true ->
-  fmt_node nonstr srt kind api s p n = Ok n' -> fmt_node nonstr srt kind api s p n' = Ok n'.
-Proof. exact fmt_idem_S1. Qed.
-Print Assumptions C20_idempotent_any_sort_partial.
+Print Assumptions C20_idempotent.
 
 (* the same for FormatFilter.Filter on a whole stream (annotation opt-out, kind / apiVersion lookup
    included): filtering the filtered stream returns it unchanged *)
-Theorem C20_stream_idempotent_partial : forall nonstr docs outs,
-  Forall (fun d => doc_keyed_ok (fst d) = true) docs ->
+Theorem C20_stream_idempotent : forall nonstr docs outs,
   filter_stream nonstr isort docs = Ok outs ->
   filter_stream nonstr isort (combine outs (map snd docs)) = Ok outs.
 Proof. exact filter_stream_idem_isort. Qed.
-Print Assumptions C20_stream_idempotent_partial.
+Print Assumptions C20_stream_idempotent.
 
-Theorem C20_stream_idempotent_any_sort_partial : forall nonstr srt docs outs, S1 srt ->
-  Forall (fun d => wf_keys (fst d) = true /\ doc_keyed_ok (fst d) = true) docs ->
+(* robustness: with ANY sort meeting (S1), stable or not, idempotence holds for documents whose
+   mappings have distinct keys *)
+Theorem C20_idempotent_any_sort : forall nonstr kind api srt, S1 srt -> forall n s p n',
+  wf_keys n = true ->
+  fmt_node nonstr srt kind api s p n = Ok n' -> fmt_node nonstr srt kind api s p n' = Ok n'.
+Proof. exact fmt_idem_S1. Qed.
+Print Assumptions C20_idempotent_any_sort.
+
+Theorem C20_stream_idempotent_any_sort : forall nonstr srt docs outs, S1 srt ->
+  Forall (fun d => wf_keys (fst d) = true) docs ->
   filter_stream nonstr srt docs = Ok outs ->
   filter_stream nonstr srt (combine outs (map snd docs)) = Ok outs.
 Proof. exact filter_stream_idem_S1. Qed.
-Print Assumptions C20_stream_idempotent_any_sort_partial.
-
-Theorem C20_idempotent_refuted : forall nonstr, exists n n1 n2,
-  wf_keys n = true /\
-  filter_doc nonstr isort SNil n = Ok n1 /\ filter_doc nonstr isort SNil n1 = Ok n2 /\ n1 <> n2.
-Proof. exact fmt_idem_refuted. Qed.
-Print Assumptions C20_idempotent_refuted.
-
-Theorem C20_idempotent_any_sort_refuted : forall nonstr, exists srt, S1 srt /\ exists n n1 n2,
-  keyed_ok "Deployment" "apps/v1" "" n = true /\
-  filter_doc nonstr srt SNil n = Ok n1 /\ filter_doc nonstr srt SNil n1 = Ok n2 /\ n1 <> n2.
-Proof. exact fmt_idem_S1_refuted. Qed.
-Print Assumptions C20_idempotent_any_sort_refuted.
+Print Assumptions C20_stream_idempotent_any_sort.
 
 (* ---- no crash ----
    The formatter never panics: all nodes, all schemas and paths, any sort function.
